@@ -361,6 +361,61 @@ def run_texts(texts, tables=False):
     return res
 
 
+# ---------------------------------------------------------------- targeted search for a new differing pair
+FOCUS = [
+    (("rrel", "parent", "navigation", "dots", "brackets", "zeroormore", "path"), [
+        "A : x = [ B : ID | ^ a . b * ] ;", "A : x = [ B : ID | parent ( T ) . a ] ;", "A : x = [ B : ID | ( a , b ) * . ~ c ] ;",
+        "A : x = [ B : ID | +m: .. a , b ] ;", "A : x = [ B | ID | a . ( b ) ] ;"],
+     ["^", ".", "..", ",", "*", "~", "(", ")", "parent", "a", "+m:", "|", "T", "'n'"]),
+    (("import", "reference", "grammar_to_import", "language", "alias"), [
+        "import a.b reference some-lang as o A : 'a' ;", "reference x A : 'a' ;", "import base import .rel A : 'a' ;"],
+     ["import", "reference", "as", "a.b", "a-b", "o", ".", "-", "x"]),
+    (("param",), ["A [ skipws , ws = ' ' ] : 'a' ;", "A [ noskipws ] : 'a' ;", "A [ split = 'x' , foo = \"y\" ] : 'a' ;"],
+     ["[", "]", ",", "=", "ws", "' '", "x"]),
+    (("repeat", "modifier", "operator"), [
+        "A : 'a' * [ ',' eolterm ] x += B [ eolterm ] - ;", "A : 'a' # [ ',' ] B + C ? - ;", "A : x *= 'a' [ '/' /r/ ] ;"],
+     ["*", "+", "?", "#", "-", "[", "]", "eolterm", "','", "/r/"]),
+    (("assignment", "attribute"), ["A : x = ID y *= 'a' z ?= /r/ w += [ B ] ;", "A : x = a.b y += B [ ',' ] ;"],
+     ["=", "*=", "+=", "?=", "x", "ID", "'a'", "[", "]"]),
+    (("obj_ref", "objref", "class_name", "classname", "qualified", "rule_ref", "ruleref", "builtin", "reference"), [
+        "A : x = [ ns.B : ID ] y = [ B | ID | ^ a ] ;", "A : x = [ B ] y = a.b.C z = ID.x INTx ;", "A : x = [ a.b.c : q ] ;"],
+     ["[", "]", ":", "|", "B", "ID", "a.b", ".", "INT", "x", "1x"]),
+    (("predicate", "expression", "bracketed", "choice", "sequence", "rule_body", "rulebody", "textx_rule", "textxrule"), [
+        "A : ! 'a' & B ( 'c' | D 'e' ) + | F - ;", "A : ( ( 'a' ) ) | B ; C : 'd' ;", "A : 'a' | 'b' | 'c' d = E ;"],
+     ["!", "&", "(", ")", "|", ";", ":", "'a'", "B", "-"]),
+    (("match", "string", "re_", "rematch"), ["A : 'a' \"b\" /c\\/d/ 'it\\'s' ;", "A : /x/ // c\n 'y' /* z */ ;"],
+     ["'a'", "\"b\"", "/r/", "'", "\"", "/", "\\", "//", "/*"]),
+    (("comment",), ["A : 'a' ; // c\n B : 'b' ; /* d */", "/* x */ A : 'a' // y\n ;"], ["//", "/*", "*/", "\n", "/"]),
+]
+
+
+def targeted_texts(unaccepted, limit=1600):
+    """texts exercising the rules named in the unaccepted differing pairs: for each matching family, every
+    single-token deletion / insertion / replacement (family tokens + general tokens) of a few base grammars"""
+    labels = [x.lower() for pair in unaccepted.split(";") if pair for x in pair.split("~")]
+    fams = [f for f in FOCUS if any(k in lab or k.replace("_", "") in lab for k in f[0] for lab in labels)] or FOCUS
+    out, seen = [], set()
+    per = max(1, limit // max(1, sum(len(f[1]) for f in fams)))
+    for keys, bases, toks in fams:
+        alphabet = toks + [t for t in MUT_TOKENS if t not in toks][:12]
+        for b in bases:
+            tl = b.split(" ")
+            mine = [b]
+            for i in range(len(tl) + 1):
+                if i < len(tl):
+                    mine.append(" ".join(tl[:i] + tl[i + 1:]))
+                for t in alphabet:
+                    mine.append(" ".join(tl[:i] + [t] + tl[i:]))
+                    if i < len(tl):
+                        mine.append(" ".join(tl[:i] + [t] + tl[i + 1:]))
+            step = max(1, len(mine) // per)
+            for t in mine[::step] if len(mine) > per else mine:
+                if t not in seen:
+                    seen.add(t)
+                    out.append(t)
+    return out[:limit]
+
+
 def run(chk):
     import time
     t0 = time.time()
@@ -369,49 +424,35 @@ def run(chk):
     n = 1800 if chk.thorough else 70
     n_model = 360 if chk.thorough else 24
     cases = gen_cases(chk, n)
-    texts = [c["text"] for c in cases]
-    t0 = time.time()
-    outs = run_texts(texts)
-    chk.notes.append("impl %d texts %.1fs" % (len(texts), time.time() - t0))
     failures, disagreements = [], []
     suspects, timeouts = [], []
-    for c, o in zip(cases, outs):
-        c["impl"] = o
-        if o.get("timeout"):
-            timeouts.append(c["text"])
-            chk.stat("skipped: a real parser needed more than 20 s")
-            continue
-        acc_l, acc_t = compiler_accepts(o), tx_accepts(o)
-        chk.count(c["text"], nontrivial=acc_l or acc_t or len(c["text"]) > 8)
-        chk.stat("%s compiler=%s textx.tx=%s" % (c["kind"].split(":")[0], "accept" if acc_l else "reject", "accept" if acc_t else "reject"))
-        # glue: the API-level classification must be the Arpeggio-level one
-        if (o["lang"] == "P") != acc_l or (o["tx"] == "P") != acc_t or o["lang"].startswith("X") or o["tx"].startswith("X") \
-                or o["api_tx"].startswith(("crash", "semantic", "syntax-visitor")) or o.get("merge_mismatch") or o.get("empty_match"):
-            disagreements.append({"case": c["text"], "impl": o, "model": "API level and parser level classify the text differently, "
-                                  "or grammar_model_from_str failed otherwise than by a syntax error, or merged regex texts differ"})
-        if acc_l != acc_t:
-            suspects.append(c)
-        if chk.cov["evaluations"] % 97 == 5:
-            chk.sample({"text": c["text"], "compiler": o["api_lang"], "textx_tx": o["api_tx"]})
-    if len(timeouts) * 50 > len(cases):
-        disagreements.append({"case": "more than 2% of the texts exceeded the per-text timer", "impl": timeouts[:3]})
-    # attribution: in the class of a finding AND the repaired text is agreed upon
-    rep_texts = [repair(c["text"]) for c in suspects]
-    rep_outs = run_texts(rep_texts) if suspects else []
-    for c, rt, ro in zip(suspects, rep_texts, rep_outs):
-        o = c["impl"]
-        tags = []
-        cls = classify(c["text"])
-        if cls and not ro.get("timeout") and compiler_accepts(ro) == tx_accepts(ro) and not classify(rt):
-            tags = sorted(cls)
-        chk.stat("disagreement:" + ("+".join(tags) if tags else "UNATTRIBUTED"))
-        failures.append({"case": {"text": c["text"], "kind": c["kind"]}, "impl": {k: o[k] for k in ("lang", "tx", "api_lang", "api_tx")},
-                         "what": "the grammar compiler %s this text, textx.tx %s it" % (
-                             "accepts" if compiler_accepts(o) else "rejects", "accepts" if tx_accepts(o) else "rejects"),
-                         "tags": tags, "repaired": {"text": rt, "compiler": ro.get("api_lang"), "textx_tx": ro.get("api_tx")}})
-    with open(chk.replay_path("unattributed.json"), "w") as f:
-        json.dump([x for x in failures if not x["tags"]], f, indent=1)
-    # model correspondence: Model/Peg.v on both dumped tables vs the real parsers
+
+    def observe(batch):
+        t0 = time.time()
+        outs = run_texts([c["text"] for c in batch])
+        chk.notes.append("impl %d texts %.1fs" % (len(batch), time.time() - t0))
+        for c, o in zip(batch, outs):
+            c["impl"] = o
+            if o.get("timeout"):
+                timeouts.append(c["text"])
+                chk.stat("skipped: a real parser needed more than 20 s")
+                continue
+            acc_l, acc_t = compiler_accepts(o), tx_accepts(o)
+            chk.count(c["text"], nontrivial=acc_l or acc_t or len(c["text"]) > 8)
+            chk.stat("%s compiler=%s textx.tx=%s" % (c["kind"].split(":")[0], "accept" if acc_l else "reject", "accept" if acc_t else "reject"))
+            # glue: the API-level classification must be the Arpeggio-level one
+            if (o["lang"] == "P") != acc_l or (o["tx"] == "P") != acc_t or o["lang"].startswith("X") or o["tx"].startswith("X") \
+                    or o["api_tx"].startswith(("crash", "semantic", "syntax-visitor")) or o.get("merge_mismatch") or o.get("empty_match"):
+                disagreements.append({"case": c["text"], "impl": o, "model": "API level and parser level classify the text differently, "
+                                      "or grammar_model_from_str failed otherwise than by a syntax error, or merged regex texts differ, "
+                                      "or a regex assumed non-empty matched the empty string"})
+            if acc_l != acc_t:
+                suspects.append(c)
+            if chk.cov["evaluations"] % 97 == 5:
+                chk.sample({"text": c["text"], "compiler": o["api_lang"], "textx_tx": o["api_tx"]})
+
+    observe(cases)
+    # model correspondence: Model/Peg.v on both dumped tables vs the real parsers; and the differing pairs by label
     sel = [c for c in cases if not c["impl"].get("timeout") and len(c["text"]) <= (160 if chk.thorough else 100)][:n_model]
     touts = run_texts([c["text"] for c in sel], tables=True) if sel else []
     exprs = []
@@ -432,10 +473,14 @@ def run(chk):
         disagreements.append({"case": "the non-empty regex list of the check differs from Model/PegEquiv.v textx_nonempty_patterns",
                               "impl": NONEMPTY_PATTERNS, "model": ne_coq})
     chk.cov["differing_pairs"] = all_diffs
+    chk.notes.append("coq model eval %d cases %.1fs" % (len(exprs), time.time() - t0))
     if unaccepted is None or unaccepted != "":
         disagreements.append({"case": "the two live parser models differ outside the accepted pairs (lang.py label ~ textx.tx label)",
                               "model": unaccepted, "all_differing_pairs": all_diffs})
-    chk.notes.append("coq model eval %d cases %.1fs" % (len(exprs), time.time() - t0))
+        # targeted search: texts that exercise the named rules
+        extra = [{"text": t, "kind": "targeted"} for t in targeted_texts(unaccepted or "")]
+        chk.notes.append("targeted search for %s: %d texts" % (unaccepted, len(extra)))
+        observe(extra)
     if errs:
         disagreements.append({"case": "coq evaluation", "model": errs[:2]})
     nm = 0
@@ -450,20 +495,42 @@ def run(chk):
             disagreements.append({"case": c["text"], "impl": [i1, i2], "model": [m1[:80], m2[:80]]})
     chk.cov["disagreements_checked"] = nm
     chk.stat("model-correspondence cases", nm)
+    if len(timeouts) * 50 > len(cases):
+        disagreements.append({"case": "more than 2% of the texts exceeded the per-text timer", "impl": timeouts[:3]})
+    # attribution: in the class of a finding AND the repaired text is agreed upon
+    rep_texts = [repair(c["text"]) for c in suspects]
+    rep_outs = run_texts(rep_texts) if suspects else []
+    for c, rt, ro in zip(suspects, rep_texts, rep_outs):
+        o = c["impl"]
+        tags = []
+        cls = classify(c["text"])
+        if cls and not ro.get("timeout") and compiler_accepts(ro) == tx_accepts(ro) and not classify(rt):
+            tags = sorted(cls)
+        chk.stat("disagreement:" + ("+".join(tags) if tags else "UNATTRIBUTED"))
+        failures.append({"case": {"text": c["text"], "kind": c["kind"]}, "impl": {k: o[k] for k in ("lang", "tx", "api_lang", "api_tx")},
+                         "what": "the grammar compiler %s this text, textx.tx %s it" % (
+                             "accepts" if compiler_accepts(o) else "rejects", "accepts" if tx_accepts(o) else "rejects"),
+                         "tags": tags, "repaired": {"text": rt, "compiler": ro.get("api_lang"), "textx_tx": ro.get("api_tx")}})
+    failures.sort(key=lambda f: (bool(f["tags"]), len(f["case"]["text"])))     # report the shortest unattributed text first
+    with open(chk.replay_path("unattributed.json"), "w") as f:
+        json.dump([x for x in failures if not x["tags"]], f, indent=1)
     chk.cov["rule"] = ("grammar texts over the full textX syntax (imports, references with alias, rule parameters, choices, sequences, all "
                        "repeat operators with separator/eolterm modifiers, predicates, suppression, string and regex matches with escapes, "
-                       "assignments with all four operators, built-in and user rule references, object references with ':' and '|' match rule "
-                       "and RREL (flags, ^, dots, parent(), brackets, ~, fixed names, *, sequences), comments between any tokens, optional "
-                       "whitespace), the committed corpus, and two token/character mutations per text; evaluated by both real parsers "
-                       "(Arpeggio level and public API); non-trivial = accepted by one side or longer than 8 characters; "
-                       "distinct by text; a subset is also run through Model/Peg.v in Coq on both dumped parser tables")
+                       "assignments with all four operators, built-in, user and fully qualified rule references, object references with ':' "
+                       "and '|' match rule and RREL (flags, ^, dots, parent(), brackets, ~, fixed names, *, sequences), comments between any "
+                       "tokens, optional whitespace), the committed corpus, and two token/character mutations per text; evaluated by both "
+                       "real parsers (Arpeggio level and public API); non-trivial = accepted by one side or longer than 8 characters; "
+                       "distinct by text; a subset is also run through Model/Peg.v in Coq on both dumped parser tables; when the parser "
+                       "models differ outside the accepted pairs, all single-token edits of base grammars for the named rules are added")
     chk.assumptions += [
         "translator langpeg_tr.py/pegdump.py: the dumped tables are the live parser models (validated per run by running Model/Peg.v on "
         "them against the real parsers: acceptance and error position)",
         "regular expressions are oracles: same regex text (after reading `\\/` as `/`) and flags = same oracle; the merge is re-validated "
         "on every generated text with Python's re",
-        "the checker soundness theorem covers memoization=False (both parsers are built without memoization; checked in C24_diffs)",
-        "accepted NOTATION differences (separator notation, STRING/string_value, /regex/) are covered by the differential correspondence only",
+        "oracle hypothesis of the soundness theorem: `\\w+` never matches the empty string (checked with re on every text and position)",
+        "the checker soundness theorem covers memoization=False (both parsers are built without memoization; checked in C24_diffs); "
+        "the memoization=True corollary needs C19's class, which excludes grammars with a comment model such as the textX language",
+        "accepted NOTATION differences ((x sep)* x, STRING/string_value, rule_ref, /regex/) are covered by the differential correspondence only",
     ]
     with open(chk.replay_path("disagreements.json"), "w") as f:
         json.dump(disagreements, f, indent=1)
